@@ -277,7 +277,7 @@ PROPS = {
             "no PID reuse; no preemption inside a single file-system call",
             "known finding: two authorities through the re-read/rename gap of stale cleanup and the check/rename gap of corrupt cleanup (known_findings.json)",
         ],
-        "gen": [],
+        "gen": ["AuthRecovery"],
     },
     "C19": {
         "level_text": "Lean 4 non-interference theorems over an executable model of layered provider configuration (global, custom, project layers deep-merged; inline keys and environment references; the three fallback environment variables; custom headers; per-request overrides), its resolution, the diagnostics summary, what a run records about its provider, and what is attached to the outgoing request: for EVERY layer stack, environment and override, renaming all secret values by ANY blank-preserving function leaves diagnostics and recordings unchanged (two-run form included), while the wire carries exactly the renamed secrets; diagnostics report presence exactly when a key goes on the wire; a resolved key is never blank; the blank-preservation hypothesis is shown necessary. Obligation re-proved by decide on a table REGENERATED from the current source on every run: the only functions outside test modules that read a secret-bearing field (.api_key, .headers) are the resolver, the doctor handler, the override plumbing and the function that sends the request. Tied further by correspondence and a canary search on every run: random layer stacks (4 layers, JSON/JSONC), environments and overrides with planted unique canary secrets; GET /config/doctor and the headers a scripted provider actually received must equal the model's doctor / wire; then every file the authority wrote (log, snapshots, artifacts incl. request dumps, caches, checkpoints), every HTTP/SSE response and the process's own stdout/stderr (cases run in a child process) are searched for the canaries, across success, failing tool, HTTP error echoing the request body, dropped connection and junk events, with request dumping on and off.",
